@@ -110,7 +110,7 @@ def lemmas():
                          desc="real imm_tok on a symbolic numeral (reference model of strtoul): [-] + 1..%d symbolic decimal digits (leading zeros included): constant == value written; SMART marks the line for narrowing" % nd))
     # ---- T3: displacement numerals through the real mem_tok
     for tag, pre, ab, ng in (("b+d", "[rax+", 0, 0), ("b-d", "[rax-", 0, 1), ("b+i*4+d", "[rax+rcx*4+", 0, 0), ("b+i*4-d", "[rax+rcx*4-", 0, 1), ("b+4*i+d", "[rax+4*rcx+", 0, 0),
-                             ("abs", "[", 1, 0), ("-abs", "[-", 1, 1), ("i*8+d", "[rcx*8+", 0, 0)):
+                             ("abs", "[", 1, 0), ("-abs", "[-", 1, 1), ("8*i+d", "[8*rcx+", 0, 0)):      # no-base operands are documented as scale*index (+/- disp), not index*scale
         for radix in (10, 16):
             out.append(Lemma(name="C02.T3.mem_tok.%s.r%d" % (tag, radix), src="numerals.c", entry="h_mem_num", props=["C02", "C16"], timeout=1800, unwind=40,
                              defs={"MPRE": '"\\"%s\\""' % pre if False else '"%s"' % pre, "MRADIX": str(radix), "MABS": str(ab), "MNEG": str(ng)},
